@@ -27,32 +27,32 @@ type layoutTable map[string]string
 
 // specLayout is the format specification (DESIGN Appendix A.3).
 var specLayout = layoutTable{
-	"block.type.ref":     "114",
-	"block.type.log":     "103",
-	"block.type.index":   "105",
-	"block.type.obj":     "111",
-	"max_restarts":       "65535",
-	"default_block_size": "4096",
-	"header_size.v1":     "24",
-	"header_size.v2":     "28",
-	"footer_size.v1":     "68",
-	"footer_size.v2":     "72",
-	"magic":              "REFT",
-	"header.layout":      "0:magic:4,4:version:1,5:block_size:3,8:min_update_index:8,16:max_update_index:8,24:hash_id:4",
-	"footer.fields":      "ref_index,obj,obj_index,log,log_index",
-	"footer.obj_id_bits": "5",
-	"footer.crc":         "crc32-ieee",
-	"hash.sha1":          "sha1",
-	"hash.sha256":        "s256",
-	"hash.sha1.size":     "20",
-	"hash.sha256.size":   "32",
+	"block.type.ref":      "114",
+	"block.type.log":      "103",
+	"block.type.index":    "105",
+	"block.type.obj":      "111",
+	"max_restarts":        "65535",
+	"default_block_size":  "4096",
+	"header_size.v1":      "24",
+	"header_size.v2":      "28",
+	"footer_size.v1":      "68",
+	"footer_size.v2":      "72",
+	"magic":               "REFT",
+	"header.layout":       "0:magic:4,4:version:1,5:block_size:3,8:min_update_index:8,16:max_update_index:8,24:hash_id:4",
+	"footer.fields":       "ref_index,obj,obj_index,log,log_index",
+	"footer.obj_id_bits":  "5",
+	"footer.crc":          "crc32-ieee",
+	"hash.sha1":           "sha1",
+	"hash.sha256":         "s256",
+	"hash.sha1.size":      "20",
+	"hash.sha256.size":    "32",
 	"restart.entry_width": "3",
 	"restart.count_width": "2",
-	"block.len_width":    "3",
-	"stack.list":         "tables.list",
-	"stack.lock_suffix":  ".lock",
-	"stack.table_suffix": ".ref",
-	"stack.name_format":  "0x%012x-0x%012x-%08x",
+	"block.len_width":     "3",
+	"stack.list":          "tables.list",
+	"stack.lock_suffix":   ".lock",
+	"stack.table_suffix":  ".ref",
+	"stack.name_format":   "0x%012x-0x%012x-%08x",
 }
 
 func normOffsetName(s string) string {
